@@ -38,6 +38,28 @@ def dimIndexValuesNoFoR : Option Nat → List Nat
 
 def frameDimsNoFoR (keys : List (Option Nat × Nat)) : List (List Nat) := keys.map fun k => dimIndexValuesNoFoR k.1
 
+/-! ### slide coordinates (tiled objects): one index per coordinate -/
+
+/-- `np.unique` of a column of coordinate values: the distinct values in increasing order -/
+def insertUniq (v : Rat) : List Rat → List Rat
+  | [] => [v]
+  | a :: t => if v < a then v :: a :: t else if v = a then a :: t else a :: insertUniq v t
+
+def uniqueSorted (l : List Rat) : List Rat := l.foldr insertUniq []
+
+/-- `int(np.where(unique_dimension_values[idx] == pos)[0][0] + 1)` for every coordinate `idx` of a tile's position
+    (row and column in the total pixel matrix, then x, y, z), behind the segment number: `uniq[idx]` = the distinct values of
+    coordinate `idx` over the tiles that are stored -/
+def slideDimIndexValues (uniq : List (List Rat)) (sg : Option Nat) (pos : List Rat) : List Nat :=
+  segPrefix sg ++ List.zipWith (fun u v => u.idxOf v + 1) uniq pos
+
+/-- the unique-value tables the constructor builds: per coordinate, over the visited tiles -/
+def slideUniques (pos : Nat → List Rat) (ord : List Nat) (ncoord : Nat) : List (List Rat) :=
+  (List.range ncoord).map fun idx => uniqueSorted (ord.map fun p => (pos p).getD idx 0)
+
+def frameDimsSlide (pos : Nat → List Rat) (ord : List Nat) (ncoord : Nat) (keys : List (Option Nat × Nat)) : List (List Nat) :=
+  keys.map fun k => slideDimIndexValues (slideUniques pos ord ncoord) k.1 (pos k.2)
+
 /-- lexicographic "comes before" on index vectors (the order DICOM asks frames to be stored in) -/
 def lexLt : List Nat → List Nat → Bool
   | a :: as, b :: bs => decide (a < b) || (a == b && lexLt as bs)
